@@ -15,3 +15,4 @@ def check(ctx, env):
     K.r10_2_fail_closed(ctx, prog)
     K.r10_3_last_on_send(ctx, prog)
     K.r10_4_constants(ctx, prog)
+    K.r4_2_validate_attribute(ctx, prog, rule="R10.5")
